@@ -373,6 +373,38 @@ pub fn gen_params(rec: &mut Recorder, rng: &mut Rng, thorough: bool) {
         }
         rec.put(&format!("gen {f} {pk} {ws}"), &res(r));
     }
+    // encoder and decoder built from the derived parameters round-trip the object (small objects,
+    // tight budgets so that Z > 1 and N > 1 occur)
+    for it in 0..(if thorough { 300 } else { 40 }) {
+        let pk = *rng.pick(&[64u16, 72, 128, 256, 500, 1024, 16, 33]);
+        let al: u64 = if pk >= 64 { 8 } else { 1 };
+        let t = (pk as u64) - (pk as u64 % al);
+        // checked builds re-verify the solver's matrix in O(L^3): keep blocks small there
+        let flen = rng.range(1, if checked_build() { 150 * t } else { 40000 }) as usize;
+        let ws = match it % 3 { 0 => 10 * 1024 * 1024, 1 => rng.range(10 * t, 400 * t), _ => rng.range(t * 20, t * 2000) };
+        if spec_gen(&table, flen as u64, pk, ws).is_none() { continue; }
+        let data = rng.bytes(flen);
+        let d2 = data.clone();
+        let r = guarded(move || {
+            let mut b = raptorq::EncoderBuilder::new();
+            b.set_max_packet_size(pk);
+            b.set_decoder_memory_requirement(ws);
+            let enc = b.build(&d2);
+            let cfg = enc.get_config();
+            let mut pk = enc.get_encoded_packets(3);
+            // drop two source packets per block, shuffle lightly
+            let mut i = 0; pk.retain(|p| { i += 1; !(p.payload_id().encoding_symbol_id() < 2 && i % 1 == 0) });
+            let mut dec = raptorq::Decoder::new(cfg);
+            let mut out = None;
+            for p in pk { out = dec.decode(p); if out.is_some() { break; } }
+            (oti_str(&cfg), out)
+        });
+        match r {
+            Ok((cfg, Some(out))) => { if out != data { rec.impl_violation(format!("round trip with derived parameters returns wrong bytes: F={flen} P={pk} WS={ws} -> {cfg}")); } rec.count("gen_round_trips"); }
+            Ok((cfg, None)) => { rec.count("gen_round_trips_undecoded"); let _ = cfg; }
+            Err(_) => rec.impl_violation(format!("encoder/decoder built from derived parameters panic: F={flen} P={pk} WS={ws}")),
+        }
+    }
     // monotonicity in the memory budget (metamorphic, directly on the implementation)
     for _ in 0..(if thorough { 20000 } else { 2000 }) {
         let pk = *rng.pick(&pks);
